@@ -14,6 +14,8 @@ def main():
     skip_dirs = []
     for m in pkgutil.iter_modules(props_pkg.__path__):
         mod = importlib.import_module("harness.props." + m.name)
+        if not hasattr(mod, "MODEL_TARGETS"):
+            continue  # a helper module, not a property
         if getattr(mod, "DISABLED", None) and getattr(mod, "SETUP_SKIP", False):
             # unfinished development (not claimed in MANIFEST.json): not part of the setup build
             skip_dirs.append(mod.COQ_DIR + "/")
@@ -37,7 +39,7 @@ def main():
         needed = []
         for m in pkgutil.iter_modules(props_pkg.__path__):
             mod = importlib.import_module("harness.props." + m.name)
-            if not getattr(mod, "DISABLED", None):
+            if hasattr(mod, "MODEL_TARGETS") and not getattr(mod, "DISABLED", None):
                 needed += list(mod.MODEL_TARGETS) + list(getattr(mod, "PROOF_TARGETS", []))
         ok2, log2 = coqrun.make(sorted(set(needed)), timeout=3000, jobs=16)
         print(log2[-3000:])
